@@ -97,10 +97,15 @@ BigExplains(cfg, c, r) ==
 
 \* long inputs with a planted copy (big = 2): the band size (hook) decides between the sentinel and a
 \* real alignment; validity and rescoring are checked, optimality only against the trivial bound
+\* diag = 1: the driver made sure that all k-mer matches of x and y lie on ONE diagonal (x is planted once
+\* in y and shares no other k-mer with it). The documented band is then a stripe of half-width w around
+\* that diagonal plus the corner pieces: its size is bounded independently of |y| (measured on the code:
+\* about |x| * (4w + 1)); a band that covers whole columns of a long y is not the documented band.
 PlantedExplains(cfg, c, r) ==
     LET md == ModeOf(c.op)
         sc == Effective(Scheme(cfg), md)
-    IN  IF r.cells > MAX_CELLS THEN Sentinel(r)
+    IN  IF c.a.diag = 1 /\ r.cells > (Len(c.a.x) + 4 * cfg.w + 4) * (4 * cfg.w + 4) THEN FALSE ELSE
+        IF r.cells > MAX_CELLS THEN Sentinel(r)
         ELSE /\ r.mode = ModeCode(md)
              /\ ValidAlignment(r, c.a.x, c.a.y, sc, md \in {"custom", "global"})
              /\ r.score <= Max2(0, MaxS(cfg.S)) * Min2(Len(c.a.x), Len(c.a.y))
